@@ -77,6 +77,9 @@ class Check:
             self.checker_cmds.append('./setup.sh ' + props + '  (make -f Makefile.coq Props/Cxx.vo Entry/Cxx.vo; extraction; ocamlfind ocamlopt)')
             if rc != 0:
                 self.notes.append('setup: ' + out[-1500:])
+                # a development that does not build proves nothing: broken proof obligation (the correspondence still runs when the
+                # old extracted driver exists and searches for a failing input)
+                self.violation('theorem:setup', 'build-failed', {}, None, out[-2500:], failing_input=False)
             for pid in (self.pid,) + tuple(extra_props):
                 pf = os.path.join(COQ, 'Props', pid + '.v')
                 if not os.path.exists(pf):
